@@ -60,11 +60,18 @@ def lean_stage(prop: str, extra_modules=()):
     lk = _lock()
     try:
         t0 = time.time()
-        rc, out = sh(["lake", "build", mod, "tedriver", *extra_modules], cwd=LEAN)
-        res["build_s"] = round(time.time() - t0, 2)
+        rc, out = sh(["lake", "build", mod, *extra_modules], cwd=LEAN)
         if rc != 0:
             errs = [l for l in out.split("\n") if "error" in l][:8]
             res["failures"].append("lake build failed: " + " | ".join(errs))
+        # the driver is a tool of the correspondence, not a proof obligation: if it does not
+        # build (infrastructure), fall back to the last built binary or stop with exit 2
+        rcd, outd = sh(["lake", "build", "tedriver"], cwd=LEAN)
+        if rcd != 0:
+            res["driver_build"] = "failed: " + " | ".join([l for l in outd.split("\n") if "error" in l][:4])
+            if not common.DRIVER.exists():
+                raise Infra("tedriver does not build and no earlier binary exists: " + res["driver_build"][:300])
+        res["build_s"] = round(time.time() - t0, 2)
         files = module_files(mod)
         for f in files:
             for ln, l in enumerate(strip_comments(f.read_text()).split("\n"), 1):
@@ -206,7 +213,7 @@ def run_check(prop: str, tier: str, seed: int) -> int:
                        + (" && lake env leanchecker TE.Props." + prop if tier == "thorough" else ""),
         "trusted_base": TRUSTED_BASE + list(getattr(mod, "TRUSTED_EXTRA", [])),
         "theorems": lean["theorems"], "axioms_used": sorted({a for v in lean["axioms"].values() for a in v}),
-        "lean_failures": lean["failures"], "lean_build_s": lean.get("build_s"),
+        "lean_failures": lean["failures"], "lean_build_s": lean.get("build_s"), "driver_build": lean.get("driver_build", "ok"),
         "evaluations": rep.evaluations, "distinct_nontrivial": len(rep.nontrivial_keys),
         "rule": getattr(mod, "RULE", ""), "samples": rep.samples or ["(no samples recorded)"],
         "traces_validated_against_impl": rep.traces or rep.evaluations,
